@@ -1,2 +1,87 @@
-/- placeholder driver for C14: replaced when the check for C14 is built -/
-def main : IO Unit := IO.println "not-built"
+import CashewsVerif.Driver.Proto
+import CashewsVerif.Model.Decor.Early
+import CashewsVerif.Model.Decor.Soft
+import CashewsVerif.Model.Decor.Fail
+import CashewsVerif.Model.Decor.Hit
+/- Driver for C14: runs one history (`call` / `adv` / `done`) on the early / soft / failover / hit model.
+
+  case <early|soft|fail|hit> ttl=<ticks> inner=<ticks> hits=<n> upd=<n> bg=<0|1>   -> ok
+  call <ok|lis|unl>            -> model=<fresh:s:id|stored:s:id|raised:lis|raised:unl|broken> x=<0|1> b=<0|1> n=<in flight>
+  adv <ticks>                  -> model=ok n=<in flight>
+  done <i> <ok|lis|unl>        -> model=<noop|stored|failed> n=<in flight>
+-/
+open CashewsVerif CashewsVerif.Proto CashewsVerif.Decor
+
+inductive St where
+  | none
+  | early (c : Early.Cfg) (s : Early.St)
+  | soft (c : Soft.Cfg) (s : Soft.St)
+  | fail (c : Fail.Cfg) (s : Fail.St)
+  | hit (c : Hit.Cfg) (s : Hit.St)
+
+def parseOutcome? (s : String) : Option Outcome :=
+  if s = "ok" then some .ok else if s = "lis" then some .listed else if s = "unl" then some .unlisted else none
+
+def showOutcome : Outcome → String
+  | .ok => "ok" | .listed => "lis" | .unlisted => "unl"
+
+def parseField? (name : String) (s : String) : Option Nat :=
+  match s.splitOn "=" with
+  | [n, v] => if n = name then v.toNat? else none
+  | _ => none
+
+def parseOp? : List String → Option DOp
+  | ["call", o] => do pure (.call (← parseOutcome? o))
+  | ["adv", dt] => do pure (.adv (← dt.toNat?))
+  | ["done", i, o] => do pure (.done (← i.toNat?) (← parseOutcome? o))
+  | _ => none
+
+def showRes : Res → String
+  | .fresh s i => s!"fresh:{s}:{i}"
+  | .stored s i => s!"stored:{s}:{i}"
+  | .raised o => s!"raised:{showOutcome o}"
+  | .broken => "broken"
+
+def b01 (b : Bool) : String := if b then "1" else "0"
+
+def showAns : Ans → String
+  | .call out => s!"model={showRes out.res} x={b01 out.exec} b={b01 (out.started && !out.exec)}"
+  | .ok => "model=ok"
+  | .done .noop => "model=noop"
+  | .done .stored => "model=stored"
+  | .done .failed => "model=failed"
+
+def parseCase? : List String → Option St
+  | ["case", d, ttl, inner, hits, upd, bg] => do
+    let ttl ← parseField? "ttl" ttl
+    let inner ← parseField? "inner" inner
+    let hits ← parseField? "hits" hits
+    let upd ← parseField? "upd" upd
+    let bg ← parseField? "bg" bg
+    let bg ← if bg = 0 then some false else if bg = 1 then some true else none
+    if d = "early" then some (.early ⟨ttl, inner, bg⟩ Early.init)
+    else if d = "soft" then some (.soft ⟨ttl, inner⟩ Soft.init)
+    else if d = "fail" then some (.fail ⟨ttl⟩ Fail.init)
+    else if d = "hit" then some (.hit ⟨ttl, hits, upd, bg⟩ Hit.init)
+    else none
+  | _ => none
+
+def step (st : St) (line : String) : St × String :=
+  let ws := words line
+  match ws with
+  | "case" :: _ =>
+    match parseCase? ws with
+    | some s => (s, "ok")
+    | none => (st, "bad-op")
+  | _ =>
+    match parseOp? ws with
+    | none => (st, "bad-op")
+    | some op =>
+      match st with
+      | .none => (st, "bad-op")
+      | .early c s => let r := Early.step c s op; (.early c r.1, s!"{showAns r.2} n={r.1.inflight.length}")
+      | .soft c s => let r := Soft.step c s op; (.soft c r.1, s!"{showAns r.2} n=0")
+      | .fail c s => let r := Fail.step c s op; (.fail c r.1, s!"{showAns r.2} n=0")
+      | .hit c s => let r := Hit.step c s op; (.hit c r.1, s!"{showAns r.2} n={r.1.inflight.length}")
+
+def main : IO Unit := mainLoop step St.none
